@@ -15,8 +15,20 @@
 // or any later written value / deletion, and the store must open (twice, identically) and accept
 // a further write. A second crash during the recovery open is injected as well.
 //
-// The history generator is a pure function of (mode, seed, tier): parent and child derive the same
-// operation list, the child journals progress (B/E/D/L lines) so that a dead child leaves a witness.
+// The history generator is a pure function of (mode, seed, nops): parent and child derive the same
+// operation list (print it with `c19.main ops <mode> <seed> <nops>`); the child journals progress so
+// that a dead child leaves a witness:
+//
+//	B <i> <a> <b>  operation i starts; a/b = number of records the exact caching mirror considers lost
+//	               (A: NO_CACHE record freed before any sync; B: pending record freed after a defrag)
+//	L <k> A|B      record k entered that state during the operation
+//	D <i>          a durable point (Close) was completed inside operation i
+//	E <i> <d>      operation i acknowledged (store mutex free again); d=1: a sync/defrag completed
+//
+// Modes: "guard" (4 of 5 histories, all crash workloads) steers around the known NO_CACHE findings
+// (FINDINGS.md F1, F2) so that histories run their full length; "free" has no restriction: there the
+// store is expected to kill the worker, the parent classifies the death by the journaled history
+// shape + the process output and goes on with the other histories.
 package main
 
 import (
@@ -740,14 +752,6 @@ func (e *exec) observeVis(k int, r *rec, vis bool) {
 	r.altClose, r.nbUnknown = false, false
 }
 
-func (e *exec) open(o Op, walk qdb.QdbWalkFunction) {
-	var db *qdb.DB
-	err := qdb.NewDBExt(&db, e.cfg.opts(o.Vol, o.Load, walk))
-	_ = err
-	e.db = db
-	e.vol = o.Vol
-}
-
 func (e *exec) sweep(where string) {
 	seen := map[int]bool{}
 	e.db.BrowseAll(func(k qdb.KeyType, v []byte) uint32 {
@@ -1290,8 +1294,10 @@ func (h *histResult) classify(crashExpected bool) {
 	case h.res.ExitCode == 0 && h.j.done:
 	case crashExpected && h.res.ExitCode == -1 && strings.Contains(h.res.Signal, "killed"):
 	default:
-		kind := "?"
-		if upto >= 0 && upto < len(h.ops) {
+		kind := "open"
+		if upto >= len(h.ops) {
+			kind = "final-CloseReopen"
+		} else if upto >= 0 {
 			kind = kindName[h.ops[upto].K]
 		}
 		h.wit["output_tail"] = vlib.Tail(h.res.Out, 2500)
@@ -1566,6 +1572,7 @@ func (m *monitor) checkDump(dir string, load bool, cfg Cfg, trk *durTracker, poi
 			copy(sum[:], b)
 		}
 		m.run.Count("crash_keys_judged", 1)
+		m.run.Count("results_compared", 1)
 		if cls, what := trk.judge(k, present, r.Len, sum); cls != "" {
 			w["record"] = r
 			w["key"] = k
@@ -1802,7 +1809,7 @@ func main() {
 	}
 
 	// ---- part 1: shadow-map histories
-	nh := run.N(1000, 10000)
+	nh := run.N(1000, 40000)
 	nops := 150
 	rs := run.Rand("histories")
 	type hjob struct {
@@ -1837,7 +1844,7 @@ func main() {
 	})
 
 	// ---- part 2: crash enumeration
-	nw := run.N(16, 16)
+	nw := run.N(16, 32)
 	cnops := run.N(70, 90)
 	rw := run.Rand("crash-workloads")
 	wseeds := make([]uint64, nw)
